@@ -118,6 +118,9 @@ type c14Cfg struct {
 	opts  func(tmp string) []parquet.WriterOption
 	nrows int
 	flush []int // Flush after these row counts
+	// via: "" = GenericWriter.Write; "filter" = the rows go through
+	// FilterRowWriter (an all-pass predicate) to the same writer
+	via string
 }
 
 func c14Configs() []c14Cfg {
@@ -128,20 +131,22 @@ func c14Configs() []c14Cfg {
 	}
 	bloom := parquet.BloomFilters(parquet.SplitBlockFilter(10, "S"), parquet.SplitBlockFilter(10, "ID"))
 	return []c14Cfg{
-		{"default", base(), 12, nil},
-		{"wbuf=0", base(parquet.WriteBufferSize(0)), 12, nil},
-		{"wbuf=7", base(parquet.WriteBufferSize(7)), 12, nil},
-		{"wbuf=0,chunkpool5", base(parquet.WriteBufferSize(0), parquet.ColumnPageBuffers(parquet.NewChunkBufferPool(5))), 12, nil},
+		{"default", base(), 12, nil, ""},
+		{"wbuf=0", base(parquet.WriteBufferSize(0)), 12, nil, ""},
+		{"wbuf=7", base(parquet.WriteBufferSize(7)), 12, nil, ""},
+		{"wbuf=0,chunkpool5", base(parquet.WriteBufferSize(0), parquet.ColumnPageBuffers(parquet.NewChunkBufferPool(5))), 12, nil, ""},
 		{"filepool", func(tmp string) []parquet.WriterOption {
 			return []parquet.WriterOption{parquet.PageBufferSize(64), parquet.ColumnPageBuffers(parquet.NewFileBufferPool(tmp, "c14.*"))}
-		}, 12, nil},
-		{"wbuf=0,bloom", base(parquet.WriteBufferSize(0), bloom), 12, nil},
-		{"wbuf=0,bloom+deferred", base(parquet.WriteBufferSize(0), bloom, parquet.DeferBloomFiltersWithBuffers(parquet.NewBufferPool())), 12, nil},
-		{"bloom+deferred", base(bloom, parquet.DeferBloomFiltersWithBuffers(parquet.NewBufferPool())), 12, nil},
-		{"wbuf=0,snappy,3rg", base(parquet.WriteBufferSize(0), parquet.Compression(&snappy.Codec{}), parquet.MaxRowsPerRowGroup(4)), 12, nil},
-		{"snappy,flush@5", base(parquet.Compression(&snappy.Codec{})), 12, []int{5}},
-		{"wbuf=0,v1,flush@5,9", base(parquet.WriteBufferSize(0), parquet.DataPageVersion(1)), 12, []int{5, 9}},
-		{"wbuf=0,kv,stats", base(parquet.WriteBufferSize(0), parquet.KeyValueMetadata("k", "v"), parquet.DataPageStatistics(true)), 12, nil},
+		}, 12, nil, ""},
+		{"wbuf=0,bloom", base(parquet.WriteBufferSize(0), bloom), 12, nil, ""},
+		{"wbuf=0,bloom+deferred", base(parquet.WriteBufferSize(0), bloom, parquet.DeferBloomFiltersWithBuffers(parquet.NewBufferPool())), 12, nil, ""},
+		{"bloom+deferred", base(bloom, parquet.DeferBloomFiltersWithBuffers(parquet.NewBufferPool())), 12, nil, ""},
+		{"wbuf=0,snappy,3rg", base(parquet.WriteBufferSize(0), parquet.Compression(&snappy.Codec{}), parquet.MaxRowsPerRowGroup(4)), 12, nil, ""},
+		{"snappy,flush@5", base(parquet.Compression(&snappy.Codec{})), 12, []int{5}, ""},
+		{"wbuf=0,v1,flush@5,9", base(parquet.WriteBufferSize(0), parquet.DataPageVersion(1)), 12, []int{5, 9}, ""},
+		{"wbuf=0,kv,stats", base(parquet.WriteBufferSize(0), parquet.KeyValueMetadata("k", "v"), parquet.DataPageStatistics(true)), 12, nil, ""},
+		// row groups are flushed from inside WriteRows: its error is the one that reports the sink's
+		{"wbuf=0,3rg,via=FilterRowWriter", base(parquet.WriteBufferSize(0), parquet.MaxRowsPerRowGroup(4)), 12, nil, "filter"},
 	}
 }
 
@@ -154,6 +159,8 @@ func c14Write(cfg c14Cfg, rows []IORow, out io.Writer) (err error, panicked any)
 		}
 	}()
 	w := parquet.NewGenericWriter[IORow](out, cfg.opts(tmpDir)...)
+	schema := parquet.SchemaOf(IORow{})
+	fw := parquet.FilterRowWriter(w, func(parquet.Row) bool { return true })
 	note := func(e error) {
 		if e != nil && err == nil {
 			err = e
@@ -172,8 +179,17 @@ func c14Write(cfg c14Cfg, rows []IORow, out io.Writer) (err error, panicked any)
 		if j > len(rows) {
 			j = len(rows)
 		}
-		_, e := w.Write(rows[i:j])
-		note(e)
+		if cfg.via == "filter" {
+			var prs []parquet.Row
+			for k := i; k < j; k++ {
+				prs = append(prs, schema.Deconstruct(nil, &rows[k]))
+			}
+			_, e := fw.WriteRows(prs)
+			note(e)
+		} else {
+			_, e := w.Write(rows[i:j])
+			note(e)
+		}
 		for k := i + 1; k <= j; k++ {
 			if flushAt[k] {
 				note(w.Flush())
